@@ -20,6 +20,8 @@ def runLine (line : String) : Driver.Result :=
   | ["cast", prop, callee, src, ext, impl] => Driver.CastCase.runCase prop callee src ext impl
   | ["rt", prop, via, src, ext, text, back] => Driver.CastCase.runRT prop via src ext text back
   | ["line", prop, ti, to, line, ext, impl] => Driver.Line.runLine prop ti to line ext impl
+  | ["rtrip", _, line, dom, ext, first, second] => Driver.Line.runRoundTrip line dom ext first second
+  | ["accept", _, ti, line, ext, impl, go] => Driver.Line.runAccept ti line ext impl go
   | ["emit", prop, to, val, ext, impl] => Driver.Line.runEmit prop to val ext impl
   | ["std", fn, args, impl] => Driver.Std.runCase fn args impl
   | kind :: _ => ⟨"B", s!"unknown case kind or arity: {kind}"⟩
